@@ -148,7 +148,8 @@ class Gen:
 
     def __init__(self, rng, dim, lg, defects=True, extras=True):
         self.r, self.d, self.lg = rng, dim, lg
-        self.defects = defects      # allow the shapes of the two known defects (3-D cross arithmetic, dot(matrix, vector))
+        self.defects = defects      # cross-product arithmetic and dot(matrix, vector): former defects (fixed in 14cf28b,
+        #                             1e0454e), now part of the ordinary stream; the flag only varies their weight
         self.extras = extras        # elementary functions of coordinates, symbolic exponents, literal matrices/tuples
 
     def coord(self):
@@ -192,8 +193,9 @@ class Gen:
         if depth <= 0 or r.random() < 0.12:
             return self.sleaf()
         alts = [("add", 3), ("mul", 4), ("pow", 1.5), ("div", 3), ("laplace", 2), ("dot", 3), ("leaf", 1)]
+        alts += [("inner_v", 1)]
         if d >= 2:
-            alts += [("inner_v", 1), ("inner_m", 1.5)]
+            alts += [("inner_m", 1.5)]
         if d == 2:
             alts += [("curl", 2), ("bracket", 2), ("cross", 2)]
         if self.extras:
@@ -239,12 +241,12 @@ class Gen:
         if d >= 2:
             alts += [("div_m", 1.5)]
         if d == 3:
-            alts += [("curl", 3), ("cross", 2.5 if self.defects else 0.0)]
+            alts += [("curl", 3), ("cross", 2.5 if self.defects else 1.5)]
             alts += [("cross_arg", 1.0)]
         if d == 2:
             alts += [("rot", 2)]
-        if self.defects and d >= 2:
-            alts += [("dot_mv", 0.5)]
+        if d >= 2:
+            alts += [("dot_mv", 1.0 if self.defects else 0.5)]
         if self.extras and d >= 2:
             alts += [("matcol", 0.5), ("tup", 0.3)]
         alts = [(a, w) for a, w in alts if w > 0]
@@ -304,7 +306,7 @@ class Gen:
         if d != 2:
             opts += [op("Rot", f), op("Bracket", f, g_)]
         if d == 1:
-            opts += [op("Curl", F), op("Cross", F, G), op("Inner", F, G)]
+            opts += [op("Curl", F), op("Cross", F, G)]
         e = r.choice(opts)
         if r.random() < 0.4:
             e = {"k": "mul", "a": [{"k": "sf", "name": "h"}, e]}
@@ -799,11 +801,11 @@ def main(run, replay=None):
         "Theorems are about coq/Model/LowerM.v and the tables of coq/Gen/Formulas.v, which are regenerated from "
         "sympde/topology/derivatives.py and sympde/core/algebra.py on every run; the walker of TerminalExpr.eval is tied by this "
         "run's correspondence (model output and classical reference proved equal to the implementation's output per case by tequiv).",
-        "lower_sound / lower_shape / lower_total are proved for the fragment delimited by the boolean guards of Props/C01.v "
-        "(..._partial: guard `regular`, definedness hypothesis gdef which holds automatically on division-free trees - "
-        "lower_sound_poly; totality and object shape for d = 2, 3); outside it (elementary functions, symbolic exponents, "
-        "literal tuples / matrices, matrix products, dimension 1 for totality) every sample is still decided per case by "
-        "tens-equivalence inside Coq. The unguarded statements are refuted in Props/C01.v by the two confirmed defects.",
+        "Since the repairs 14cf28b (Cross_3d) and 1e0454e (Dot matrix arms) soundness, totality and object shape hold on the "
+        "whole supported fragment for d = 2, 3 (C01_lowering_sound / _total / _shape; definedness hypothesis gdef, automatic on "
+        "division-free trees - lower_sound_poly); for d = 1..3 soundness holds on every `regular` tree. Outside (elementary "
+        "functions, symbolic exponents, literal tuples / matrices, matrix products, dimension 1 for totality - known finding "
+        "C01-1d-vector-as-scalar) every sample is still decided per case by tens-equivalence inside Coq.",
         "Cases whose lowered output exceeds 4000 nodes, or whose comparison exceeds the time / memory limit of one coqc run, "
         "are decided by the numeric oracle only (counted as too_large_for_checker / checker_resource_limit).",
         "The sympy cache is cleared before every case (stale results across same-named objects of different dimension are C12).",
